@@ -295,7 +295,7 @@ def tmpdir():
 
 
 def make_cfg(name, spec=None, init=None, next=None, constants=None, invariants=(), properties=(),
-             constraints=(), action_constraints=(), view=None, postcondition=None):
+             constraints=(), action_constraints=(), view=None, postcondition=None, deadlock=False):
     """Write a TLC config file into the run's scratch directory and return its path.
     constants: dict name -> literal text ("3", "{1,2}", "TRUE") or ("<-", "OperatorName")."""
     lines = []
@@ -324,7 +324,7 @@ def make_cfg(name, spec=None, init=None, next=None, constants=None, invariants=(
         lines.append("VIEW " + view)
     if postcondition:
         lines.append("POSTCONDITION " + postcondition)
-    lines.append("CHECK_DEADLOCK FALSE")
+    lines.append("CHECK_DEADLOCK " + ("TRUE" if deadlock else "FALSE"))
     path = os.path.join(tmpdir(), name + ".cfg")
     with open(path, "w") as fh:
         fh.write("\n".join(lines) + "\n")
